@@ -12,7 +12,7 @@ def run(rep, kf, tier, seed):
     import contracts.registration as creg
     import contracts.fixpoints as cfp
     engine_b.discharge(rep, kf, creg.all_contracts() + cfp.all_contracts(), "C07", tier, seed)
-    run_bounded(rep, kf, "C07", ["body_media", "enum_values", "model_properties", "param_conflicts", "name_collision", "body_refs"], tier)
+    run_bounded(rep, kf, "C07", ["body_media", "enum_values", "model_properties", "param_conflicts", "name_collision", "body_refs", "schema_accounting"], tier)
     rep.trusted.append("pyvc Engine B")
     rep.assumptions.extend([
         "per-iteration accounting of EndpointCollection.from_data / _add_responses / _create_schemas is covered by bounded "
